@@ -336,7 +336,7 @@ def reference(case):
     output = state if final is None else final(shared, state)
     seen.append(output)
     seen.extend(results)
-    scale = 1.0
+    scale = 0.0
     for leaf in jax.tree_util.tree_leaves(seen):
       v = np.asarray(leaf)
       if v.dtype.kind == 'f':
@@ -546,7 +546,7 @@ _int = st.sampled_from(INTS)
 # a special-term coefficient: absent (0) half of the time
 _special = st.one_of(st.just(0), _nzhalf)
 
-# Indexed by (one wide drawn integer) mod 20: Hypothesis draws small bounded
+# Indexed by (one wide drawn integer) mod len(table): Hypothesis draws small bounded
 # integers / menu positions very unevenly, which starved some device counts.
 # Positions 0 and 1 (drawn most often) hold the most padding-prone backends.
 BACKEND_TABLE = ['pmap:8', 'pmap:3', 'debug', 'pmap', 'pmap', 'pmap:1', 'pmap:2', 'pmap:2',
